@@ -212,7 +212,16 @@ pub fn run_batch(prop: &str, props: u32, b: &Batch, seed: u64, nworkers: usize, 
                         // order-independent combination of per-run digests
                         digest = digest.wrapping_add(mix(res.digest, r));
                         if r < 3 || (r % (b.runs / 3).max(1) == 1 && samples.len() < 6) {
-                            samples.push(format!("run {}: {}", r, trace.brief()));
+                            let mut b = trace.brief();
+                            if b.len() > 420 {
+                                let mut cut = 420;
+                                while !b.is_char_boundary(cut) {
+                                    cut -= 1;
+                                }
+                                b.truncate(cut);
+                                b.push_str(" ...");
+                            }
+                            samples.push(format!("run {} ({} ops): {}", r, trace.s.len(), b));
                         }
                         if !res.viol.is_empty() {
                             violating += 1;
